@@ -128,6 +128,14 @@ class LinkWorld:
                 self.coef[c] = (al, be)
             self.D[name] = Data(label=name, **kw)
         self.cid = {c: d.id[c] for d in self.D.values() for c in self.coef if c in [x.label for x in d.main_components]}
+        # an attribute of A computed from a1 inside the dataset (it goes when a1 goes); links of other datasets may hang on it
+        from glue.core.component_id import ComponentID
+        from glue.core.component_link import ComponentLink
+        self.coef['a3'] = (float(k + 1), float(10 * (k + 1)))
+        a3 = ComponentID('a3', parent=self.D['A'])
+        self.D['A'].add_component_link(ComponentLink([self.cid['a1']], a3, using=self.fn('a1', 'a3')))
+        self.cid['a3'] = a3
+        self.dependants = {'a1': ['a3']}
         self.dc = DataCollection([self.D['A'], self.D['B'], self.D['C']])
         self.links = []          # (link object, [from labels], to label, two_way)
         self.removed_cids = []
@@ -204,8 +212,13 @@ class LinkWorld:
                 owner = cid.parent
                 owner.remove_component(cid)
                 self.removed_cids.append(cid)
+                gone = [c]
+                for dep in self.dependants.get(c, []):
+                    if dep in self.cid:
+                        self.removed_cids.append(self.cid.pop(dep))
+                        gone.append(dep)
                 if any(owner is x for x in dc):
-                    self.links = [l for l in self.links if c not in l[2]]
+                    self.links = [l for l in self.links if not any(g in l[2] for g in gone)]
         elif k == 'addcomp':
             self.extra += 1
             name = 'x%d' % self.extra
@@ -238,9 +251,12 @@ class LinkWorld:
         edges = []
         for l, es, labels in self.links:
             edges.extend(es)
+        # the links inside member datasets count as well: whoever reaches a1 reaches the attribute computed from it
+        if 'a1' in self.cid and 'a3' in self.cid and any(x is self.D['A'] for x in self.dc):
+            edges.append((('a1',), 'a3'))
         out = {}
         for d in self.dc:
-            own = set(c.label for c in d.main_components if c.label in self.coef)
+            own = set(c.label for c in list(d.main_components) + list(d.derived_components) if c.label in self.coef)
             dep = oracle_closure(own, edges)
             out[d.label] = set(dep)
         return out
@@ -300,8 +316,9 @@ class LinkWorld:
 
 LINK_OPS = [('multilink', ('a1',), ('c1', 'c2')), ('multilink', ('a1', 'a2'), ('b1',)), ('multilink', ('a1', 'a2'), ('c1', 'c2')), ('twoway', 'a2', 'e1'),
             ('link', ('a1',), 'b1', True), ('link', ('b1',), 'c1', False), ('link', ('a1',), 'c1', False), ('link', ('c1',), 'a2', True),
-            ('link', ('a1', 'b1'), 'c2', False), ('link', ('c2',), 'e1', True), ('link', ('b1',), 'a1', False)]
-OTHER_OPS = [('unlink', 0), ('unlink', 1), ('set_links', 1), ('set_links', 0), ('rmcomp', 'b1'), ('rmcomp', 'a1'), ('rmcomp', 'c2'), ('addcomp', 'B'),
+            ('link', ('a1', 'b1'), 'c2', False), ('link', ('c2',), 'e1', True), ('link', ('b1',), 'a1', False),
+            ('link', ('a3',), 'b1', True), ('link', ('a3',), 'c2', False), ('twoway', 'a3', 'c1')]
+OTHER_OPS = [('unlink', 0), ('unlink', 1), ('set_links', 1), ('set_links', 0), ('rmcomp', 'b1'), ('rmcomp', 'a1'), ('rmcomp', 'a1'), ('rmcomp', 'a3'), ('rmcomp', 'c2'), ('addcomp', 'B'),
              ('rmdata', 'B'), ('rmdata', 'C'), ('adddata', 'E'), ('adddata', 'B')]
 
 
